@@ -22,9 +22,11 @@ import (
 	"flag"
 	"fmt"
 	"go/ast"
+	"go/importer"
 	"go/parser"
 	"go/printer"
 	"go/token"
+	"go/types"
 	"io"
 	"os"
 	"path/filepath"
@@ -113,6 +115,12 @@ func main() {
 
 	var pkgName string
 	var globals []string
+	type parsedFile struct {
+		path string
+		f    *ast.File
+	}
+	var parsed []parsedFile
+	usesAtomic := false
 	for _, p := range rootFiles {
 		f, err := parser.ParseFile(fset, p, nil, parser.ParseComments)
 		if err != nil {
@@ -121,6 +129,22 @@ func main() {
 		if ignoredByBuildTag(f) {
 			continue
 		}
+		for _, imp := range f.Imports {
+			if imp.Path.Value == `"sync/atomic"` {
+				usesAtomic = true
+			}
+		}
+		parsed = append(parsed, parsedFile{p, f})
+	}
+	if usesAtomic {
+		var files []*ast.File
+		for _, pf := range parsed {
+			files = append(files, pf.f)
+		}
+		rewriteAtomics(files)
+	}
+	for _, pf := range parsed {
+		p, f := pf.path, pf.f
 		collectUnsupported(f)
 		if pkgName == "" {
 			pkgName = f.Name.Name
@@ -179,6 +203,9 @@ func main() {
 	g.WriteString("// VerifLockHook, when non-nil, is told about every lock acquisition (kind 1),\n// release (0), read acquisition (2) and read release (3).\n")
 	g.WriteString("var VerifLockHook func(kind int, lock any, site uint32)\n\n")
 	g.WriteString("func verifLock(kind int, lock any, site uint32) {\n\tif h := VerifLockHook; h != nil {\n\t\th(kind, lock, site)\n\t}\n}\n\n")
+	if atomicSites > 0 {
+		g.WriteString(atomHelpers)
+	}
 	g.WriteString("// VerifShared returns the names of and pointers to every package-level variable.\n")
 	g.WriteString("func VerifShared() ([]string, []any) {\n\treturn []string{")
 	for _, n := range globals {
@@ -208,7 +235,7 @@ func main() {
 	if err := os.WriteFile(filepath.Join(*dst, "verif_sites.tsv"), s.Bytes(), 0o644); err != nil {
 		fatal("%v", err)
 	}
-	fmt.Printf("instr: %d files, %d sites, %d globals, sync=%v\n", len(rootFiles), len(sites), len(globals), usesSync)
+	fmt.Printf("instr: %d files, %d sites, %d globals, sync=%v, atomic operations=%d\n", len(rootFiles), len(sites), len(globals), usesSync, atomicSites)
 }
 
 // funcInfo is what the simulator needs to steer generation towards code that
@@ -620,4 +647,124 @@ func instrExprFuncLits(e ast.Expr, fn string) {
 		}
 		return true
 	})
+}
+
+// ---------- sync/atomic ----------
+
+// Every operation of package sync/atomic becomes a scheduling point of its
+// own: x.CompareAndSwap(a, b) is rewritten to
+//
+//	verifAtom21(site, x.CompareAndSwap, a, b)
+//
+// Go evaluates the method value and the arguments first and calls the helper
+// last, and the helper yields before it performs the operation. A caller can
+// therefore lose the processor between the atomic operations of one
+// expression (between the Load that feeds a CompareAndSwap and the
+// CompareAndSwap itself), which statement-level yields cannot express. The
+// site carries the same flag as "a lock has just been acquired", so the
+// schedule's "pre-empt at the k-th synchronisation event of this operation"
+// entries address these points directly.
+var atomicSites int
+
+const atomHelpers = `func verifAtom01[R any](site uint32, f func() R) R { verifStep(site); return f() }
+func verifAtom10[A any](site uint32, f func(A), a A) { verifStep(site); f(a) }
+func verifAtom11[A, R any](site uint32, f func(A) R, a A) R { verifStep(site); return f(a) }
+func verifAtom20[A, B any](site uint32, f func(A, B), a A, b B) { verifStep(site); f(a, b) }
+func verifAtom21[A, B, R any](site uint32, f func(A, B) R, a A, b B) R { verifStep(site); return f(a, b) }
+func verifAtom31[A, B, C, R any](site uint32, f func(A, B, C) R, a A, b B, c C) R {
+	verifStep(site)
+	return f(a, b, c)
+}
+
+`
+
+func rewriteAtomics(files []*ast.File) {
+	info := &types.Info{
+		Uses:       map[*ast.Ident]types.Object{},
+		Selections: map[*ast.SelectorExpr]*types.Selection{},
+	}
+	cfg := types.Config{Importer: importer.ForCompiler(fset, "source", nil), Error: func(error) {}}
+	cfg.Check("lib", fset, files, info) // errors are left to the compiler
+	for _, f := range files {
+		var fn string
+		for _, d := range f.Decls {
+			fd, ok := d.(*ast.FuncDecl)
+			if ok {
+				fn = fd.Name.Name
+				if fd.Recv != nil && len(fd.Recv.List) == 1 {
+					fn = recvName(fd.Recv.List[0].Type) + "." + fn
+				}
+			} else {
+				fn = "init"
+			}
+			ast.Inspect(d, func(n ast.Node) bool {
+				call, ok := n.(*ast.CallExpr)
+				if !ok {
+					return true
+				}
+				var obj types.Object
+				switch fun := call.Fun.(type) {
+				case *ast.SelectorExpr:
+					if sel := info.Selections[fun]; sel != nil {
+						obj = sel.Obj()
+					} else {
+						obj = info.Uses[fun.Sel]
+					}
+				case *ast.Ident:
+					obj = info.Uses[fun]
+				}
+				tf, ok := obj.(*types.Func)
+				if !ok || tf.Pkg() == nil || tf.Pkg().Path() != "sync/atomic" || call.Ellipsis.IsValid() {
+					return true
+				}
+				sig := tf.Type().(*types.Signature)
+				np, nr := sig.Params().Len(), sig.Results().Len()
+				name := fmt.Sprintf("verifAtom%d%d", np, nr)
+				switch name {
+				case "verifAtom01", "verifAtom10", "verifAtom11", "verifAtom20", "verifAtom21", "verifAtom31":
+				default:
+					return true
+				}
+				if len(call.Args) != np {
+					return true
+				}
+				// interface-typed parameters (atomic.Value): name the type
+				// arguments, inference would pick the argument's own type
+				var fun ast.Expr = &ast.Ident{Name: name}
+				anyParam := false
+				for i := 0; i < np; i++ {
+					if types.IsInterface(sig.Params().At(i).Type()) {
+						anyParam = true
+					}
+				}
+				if anyParam {
+					var targs []ast.Expr
+					for i := 0; i < np; i++ {
+						if !types.IsInterface(sig.Params().At(i).Type()) {
+							return true // mixed: leave the call alone
+						}
+						targs = append(targs, &ast.Ident{Name: "any"})
+					}
+					if len(targs) == 1 {
+						fun = &ast.IndexExpr{X: fun, Index: targs[0]}
+					} else {
+						fun = &ast.IndexListExpr{X: fun, Indices: targs}
+					}
+				}
+				p := fset.Position(call.Pos())
+				rel, err := filepath.Rel(srcRoot, p.Filename)
+				if err != nil {
+					rel = filepath.Base(p.Filename)
+				}
+				id := len(sites)
+				sites = append(sites, site{fmt.Sprintf("%s:%d", rel, p.Line), fn, "atomic " + tf.Name()})
+				atomicSites++
+				args := []ast.Expr{&ast.BasicLit{Kind: token.INT, Value: fmt.Sprintf("%d|0x%x", id, uint32(lockFlag))}, call.Fun}
+				args = append(args, call.Args...)
+				call.Fun = fun
+				call.Args = args
+				return true
+			})
+		}
+	}
 }
